@@ -45,7 +45,7 @@ def case_indices(spec, rec):
 
 # share of generated grids whose length unit is a power of ten other than 1 (1e-3..1e3): cell sizes, box origins
 # and everything the generators derive from them (positions, radii, widths, distances) scale along
-UNIT_P = {"C01": 0.15, "C02": 0.15, "C03": 0.15, "C04": 0.15, "C09": 0.15, "C10": 0.15, "C14": 0.15}
+UNIT_P = {"C01": 0.15, "C02": 0.15, "C03": 0.15, "C04": 0.15, "C09": 0.15, "C10": 0.15}
 
 
 def run_generated(spec, rec, gen, run, prop):
